@@ -126,11 +126,14 @@ func (b *Builder) build(t reflect.Type, depth int, field string) reflect.Value {
 		if exhausted {
 			return v
 		}
-		switch b.C.Int(0, 5, "slice-shape") {
+		switch b.C.Int(0, 6, "slice-shape") {
 		case 0:
 			return v // nil
 		case 1:
 			return reflect.MakeSlice(t, 0, 0) // non-nil empty
+		case 2:
+			// empty, non-nil, with spare capacity (buf[:0] of a reused buffer)
+			return reflect.MakeSlice(t, 0, b.C.Int(1, 4, "empty-cap"))
 		}
 		if r, ok := b.reuse(t); ok {
 			// also overlapping sub-slices of one backing array
